@@ -21,6 +21,7 @@ type PropEntry struct {
 	Trusted   []string `json:"trusted_base"`
 	NotCov    []string `json:"not_covered"`
 	Bounded   []string `json:"bounded"`
+	Lemmas    []string   `json:"lemmas,omitempty"` // SMT-LIB files (relative to /verif) whose expected answer is unsat
 	Effects   *effectCfg `json:"effects,omitempty"`
 	EffectKind string    `json:"effect_kind,omitempty"`
 }
